@@ -142,3 +142,25 @@ double bad_string_sum(SIZED_STRING* arg, md5_ctx* c)
   yr_md5_update(c, s->c_string, strlen(s->c_string));
   return sum;
 }
+
+/* R14.5: errno protocol of strtoll */
+int* __errno_location(void);
+#define errno (*__errno_location())
+long long strtoll(const char* s, char** e, int base);
+
+int bad_to_int(char* s, long long* out)
+{
+  char* e = s;
+  *out = strtoll(s, &e, 10);
+  if (errno != 0) return 0;          /* errno never reset: stale failure of an earlier call */
+  return e != s;
+}
+
+int good_to_int(char* s, long long* out)
+{
+  char* e = s;
+  errno = 0;
+  *out = strtoll(s, &e, 10);
+  if (errno != 0) return 0;
+  return e != s;
+}
